@@ -66,16 +66,15 @@ def _both(*fs):
 
 TB = ["TB-fml", "TB-solver", "TB-py"]
 L1 = "L1 (greedy tolerance test fails iff no ordered tolerance partition exists; order independence of the verdict) - classical (Goldszmidt/Pearl); cross-checked by Engine B against a brute force over all ordered partitions on bases of <= 3 conditionals"
-LSTOP = "least-number principle: among the indices with an empty greedy layer (lemma L-stop proves that one exists below |cs|+1) there is a first one, which is what `stop` denotes"
 LREST = "L-rest: GR(cs,stop) and GR(cs,stop+1) have the same elements (the layer at stop is empty)"
 
 PROPS = {
     "C01": dict(
         level="proof",
         bounded=_ops("C01"),
-        lemmas=["lenGLs", "L-stop", "mem.snoc.Int", "mem.nil.Int"],
+        lemmas=["lenGLs", "L-stop", "L-least", "mem.snoc.Int", "mem.nil.Int"],
         trusted=TB,
-        assumed=[L1, "Adams / Goldszmidt-Pearl: D+(not B|A) has no tolerance partition iff (B|A) is accepted by every ranking model of D", LSTOP],
+        assumed=[L1, "Adams / Goldszmidt-Pearl: D+(not B|A) has no tolerance partition iff (B|A) is accepted by every ranking model of D"],
         explanation="Engine P proves, from the real source, Conditional.make_*, toImplicit, consistency (both loops, every exit), "
         "PEntailment._inference (strict and extended, for arbitrary distinct integer keys) and the shared wrapper general_inference against "
         "the greedy tolerance-partition specification; greedy <-> declarative is an assumed classical lemma. Engine B compares "
@@ -84,9 +83,9 @@ PROPS = {
     "C02": dict(
         level="proof",
         bounded=_ops("C02"),
-        lemmas=["lenGLs", "L-stop", "Zmono", "Zshrink", "L2a", "L2b"],
+        lemmas=["lenGLs", "L-stop", "L-least", "Zmono", "Zshrink", "L2a", "L2b"],
         trusted=TB,
-        assumed=["reading of `<` between minima: rank(AB) < rank(A not B) iff some threshold j has a verifying world of rank <= j and no falsifying world of rank <= j (minimum of an empty set infinite)", LSTOP],
+        assumed=["reading of `<` between minima: rank(AB) < rank(A not B) iff some threshold j has a verifying world of rank <= j and no falsifying world of rank <= j (minimum of an empty set infinite)"],
         explanation="Engine P proves SystemZ._preprocess_belief_base (partition = greedy partition), _inference and the recursion "
         "_rec_inference (result == EZ, the layer-wise descent) from the real source; lemma L2a (EZ = exists separating layer) and lemma L2b "
         "(the separating layer is a comparison of Z-ranks of worlds: w lies in the worlds of rank <= j iff the rank descent on {w} returns "
@@ -95,7 +94,7 @@ PROPS = {
     "C03": dict(
         level="other",
         bounded=_both(_ops("C03"), _mod("pure"), _mod("mcsz3")),
-        lemmas=["GVC.count", "SeenViol.step", "InKey.step", "GenBlock.step", "CoveredUpTo.snoc", "MCS.bridge", "MCS.bridge2", "KeySoftN.mono", "XI", "L-rest", "L-restk", "L-stop", "L-stopk", "mem.snoc.Int", "mem.nil.Int"],
+        lemmas=["GVC.count", "SeenViol.step", "InKey.step", "GenBlock.step", "CoveredUpTo.snoc", "MCS.bridge", "MCS.bridge2", "KeySoftN.mono", "XI", "L-rest", "L-restk", "L-stop", "L-stopk", "L-least", "L-leastk", "mem.snoc.Int", "mem.nil.Int"],
         trusted=TB + ["TB-z3", "TB-time", "TB-sat"],
         assumed=[
             "RC2: RC2(wcnf).compute() returns None iff no world satisfies the hard clauses, otherwise a model of them (pysat, trusted)",
@@ -105,7 +104,6 @@ PROPS = {
             "termination of the enumeration loops is not proved",
             "OptModel (TB-z3): after check() == sat, Optimize.model() denotes a world of the hard set such that no world of the hard set violates a strict subset of the soft constraints it violates (bounded: module mcsz3 compares get_all_xi_i with brute force)",
             "L3: the recursion over minimal correction sets (WREC) decides the preferred-structure definition of System W (Komo/Beierle 2022)",
-            LSTOP,
         ],
         explanation="Engine P proves both back-ends from the real source against the recursion WREC over minimal falsified sets: "
         "SystemWZ3._preprocess_belief_base / _inference / _rec_inference / get_all_xi_i (z3 Optimize ghost model with soft constraints; the enumeration loop against AllMin / Exhaustive, lemmas XI.*) and SystemW._preprocess_belief_base / "
@@ -119,7 +117,7 @@ PROPS = {
     "C04": dict(
         level="other",
         bounded=_both(_ops("C04"), _mod("lexbias"), _mod("pure"), _mod("mcsz3")),
-        lemmas=["GVC.count", "SeenViol.step", "InKey.step", "GenBlock.step", "CoveredUpTo.snoc", "MCS.bridge", "MCS.bridge2", "KeySoftN.mono", "XI", "L-rest", "L-restk", "L-stop", "L-stopk", "mem.snoc.Int", "mem.nil.Int"],
+        lemmas=["GVC.count", "SeenViol.step", "InKey.step", "GenBlock.step", "CoveredUpTo.snoc", "MCS.bridge", "MCS.bridge2", "KeySoftN.mono", "XI", "L-rest", "L-restk", "L-stop", "L-stopk", "L-least", "L-leastk", "mem.snoc.Int", "mem.nil.Int"],
         trusted=TB + ["TB-z3", "TB-time", "TB-sat"],
         assumed=[
             "RC2: RC2(wcnf).compute() returns None iff no world satisfies the hard clauses, otherwise a model of them (pysat, trusted)",
@@ -129,7 +127,6 @@ PROPS = {
             "termination of the enumeration loops is not proved",
             "OptModel (TB-z3) as for C03",
             "L4: the recursion over minimum-cardinality correction sets (LREC: exists a verifying candidate that beats all falsifying ones) decides the lexicographic definition (Haldimann/Beierle 2022)",
-            LSTOP,
         ],
         explanation="Engine P proves both back-ends from the real source against the recursion LREC: LexInfZ3 and LexInf "
         "_preprocess_belief_base / _inference / _rec_inference (and LexInfZ3.get_all_xi_i) (cardinality comparison, exists/forall over the minimum-cardinality "
@@ -160,9 +157,9 @@ PROPS = {
     "C06": dict(
         level="proof",
         bounded=_mod("c06"),
-        lemmas=["lenGLs", "lenGLsk", "L-rest", "L-restk", "L-stop", "L-stopk", "mem.snoc.Int", "mem.nil.Int", "RangeList"],
+        lemmas=["lenGLs", "lenGLsk", "L-rest", "L-restk", "L-stop", "L-stopk", "L-least", "L-leastk", "mem.snoc.Int", "mem.nil.Int", "RangeList"],
         trusted=TB,
-        assumed=[L1, LSTOP],
+        assumed=[L1],
         explanation="Engine P proves consistency and consistency_indices (outer/inner loops, strict and extended exits, arbitrary keys) "
         "equal to the greedy partition specification, preprocess_belief_base's refusal of empty/inconsistent bases, and the diagnostics: "
         "facts_jointly_satisfiable, _last_layer_size and consistency_diagnostics (every flag equals its definition over the partition "
@@ -172,12 +169,11 @@ PROPS = {
     "C07": dict(
         level="other",
         bounded=_ops("C07"),
-        lemmas=["XI", "MCS.bridge", "MCS.bridge2", "CoveredUpTo.snoc", "L-rest", "L-restk", "L-stop", "L-stopk"],
+        lemmas=["XI", "MCS.bridge", "MCS.bridge2", "CoveredUpTo.snoc", "L-rest", "L-restk", "L-stop", "L-stopk", "L-least", "L-leastk"],
         trusted=TB + ["TB-z3", "TB-time", "TB-sat"],
         assumed=[
             "L7: the extended (weakly consistent) formulations of p-entailment / Z / W / lex: conditionals of the infinity layer are hard constraints, worlds falsifying them are infeasible",
             "L3 / L4 (links of WREC / LREC to the definitions), RC2 / GVC / BLOCK, OptModel (see C03)",
-            LSTOP,
         ],
         explanation="Engine P proves the extended branches from the real source: PEntailment._inference, SystemZ._inference (vacuity test, "
         "feasibility constraints, no-finite-layer case), both back-ends' _preprocess_belief_base (extended partition = greedy layers plus "
@@ -289,9 +285,9 @@ PROPS = {
     "C16": dict(
         level="other",
         bounded=_both(_mod("c16"), _mod("extra", "run_c16x")),
-        lemmas=["RangeList", "mem.snoc.Str", "mem.nil.Str", "LitsOK.step", "WofN.map"],
+        lemmas=["RangeList", "mem.snoc.Str", "mem.nil.Str", "LitsOK.step", "WofN.map", "L-stop", "L-least"],
         trusted=TB,
-        assumed=["symbolize_bitvec (string manipulation) denotes the world", LSTOP],
+        assumed=["worlds handed to a ranking are well-formed bitstrings of its signature, and Wof(b) abbreviates WofN(b, signature) (the computation of symbolize_bitvec is proved: contract symbolize_bitvec#impl, lemma WofN.map)"],
         explanation="Engine P proves SystemZPreOCF._rec_z_rank, z_part2ocf and rank_world with the cache invariant (lazy / forced / "
         "bulk computation agree in any order) and acceptance on top of formula_rank; constructor, facts and diagnostics are bounded.",
     ),
